@@ -40,7 +40,7 @@ SimSpec == SimInit /\ [][SimNext]_<<vars, turn>>
 
 \* an expiry whose notice has a route to N (the hold's command came in on a connection of N) and whose connection sends again
 ExpiryThenSend ==
-    \E i \in 1..Len(hist) : /\ hist[i].op = "expire" /\ hist[i].n > 0 /\ hist[i].c \in NConns
+    \E i \in 1..Len(hist) : /\ hist[i].op = "expire" /\ hist[i].n > 0 /\ hist[i].c \in NConns /\ hist[i].lid # KeyLid
                             /\ \E j \in (i + 1)..Len(hist) : hist[j].op = "send" /\ hist[j].c = hist[i].c
 SimExport == (NReq = MaxReq /\ Quiescent /\ ExpiryThenSend /\ turn = "send") => PrintT("BEHAVIOUR " \o ToJson(hist))
 =============================================================================
